@@ -88,6 +88,8 @@ func pkgNameOf(harnessDir, pkg string) string {
 	return filepath.Base(pkg)
 }
 
+var virtualClock = map[string]bool{}
+
 func harnessNames(harnessDir, pkg string) []string {
 	var names []string
 	ents, _ := os.ReadDir(filepath.Join(harnessDir, pkg))
@@ -96,13 +98,20 @@ func harnessNames(harnessDir, pkg string) []string {
 			continue
 		}
 		b, _ := os.ReadFile(filepath.Join(harnessDir, pkg, e.Name()))
+		prev := ""
 		for _, line := range strings.Split(string(b), "\n") {
 			if strings.HasPrefix(line, "func Harness_") {
 				n := strings.TrimPrefix(line, "func ")
 				if i := strings.Index(n, "("); i > 0 {
 					names = append(names, n[:i])
+					// natively replayed inside a testing/synctest bubble
+					// (virtual clock, exact quiescence)
+					if strings.Contains(prev, "//verif:virtual-clock") {
+						virtualClock[pkg+"."+n[:i]] = true
+					}
 				}
 			}
+			prev = line
 		}
 	}
 	sort.Strings(names)
@@ -141,9 +150,17 @@ func (r *replayer) build(pkg0 string, sched bool) (string, error) {
 	}
 	// the test driver
 	var sb strings.Builder
-	fmt.Fprintf(&sb, "package %s\n\nimport (\n\t\"os\"\n\t\"testing\"\n)\n\nfunc TestVerifReplay(t *testing.T) {\n\tswitch os.Getenv(\"VERIF_HARNESS\") {\n", pkgNameOf(r.harnessDir, pkg))
+	fmt.Fprintf(&sb, "package %s\n\nimport (\n\t\"fmt\"\n\t\"os\"\n\t\"testing\"\n\t\"testing/synctest\"\n\t\"time\"\n)\n\n", pkgNameOf(r.harnessDir, pkg))
+	// harnesses marked //verif:virtual-clock run in a synctest bubble: timers
+	// fire only when the harness advances the clock, as in the engine
+	sb.WriteString("func vRunBubble(t *testing.T, h func()) {\n\tsynctest.Test(t, func(t *testing.T) {\n\t\tvBubble = true\n\t\tvBubbleWait = synctest.Wait\n\t\tvT0 = time.Now()\n\t\th()\n\t\tfmt.Println(\"PASS\")\n\t\tos.Exit(0) // goroutines of the code under test may remain: leave the bubble at once\n\t})\n}\n\n")
+	sb.WriteString("func TestVerifReplay(t *testing.T) {\n\tswitch os.Getenv(\"VERIF_HARNESS\") {\n")
 	for _, n := range harnessNames(r.harnessDir, pkg) {
-		fmt.Fprintf(&sb, "\tcase %q:\n\t\t%s()\n", n, n)
+		if virtualClock[pkg+"."+n] {
+			fmt.Fprintf(&sb, "\tcase %q:\n\t\tvRunBubble(t, %s)\n", n, n)
+		} else {
+			fmt.Fprintf(&sb, "\tcase %q:\n\t\t%s()\n", n, n)
+		}
 	}
 	sb.WriteString("\tdefault:\n\t\tt.Fatal(\"unknown harness\")\n\t}\n}\n")
 	tp := filepath.Join(dir, "driver_test.go")
